@@ -49,7 +49,7 @@ def specPrim (p : Prim) (path : Path) (v : Val) : Option (List Byte × List SEv)
   | none => none
   | some x =>
     if p.isValid x && inRange p.size p.signed x then
-      some (intToBytes p.size x, [(p.size, ⟨path, .named p.name false, some x, p.name⟩)])
+      some (intToBytes p.size x, [(p.size, ⟨path, .named p.name false, some x, p.name, p.size⟩)])
     else none
 
 def specRepeat (f : Path → Val → Option (List Byte × List SEv)) (path : Path) :
@@ -69,7 +69,7 @@ def specPrimList (p : Prim) (path : Path) (n : Nat) (v : Val) : Option (List Byt
   | none => none
   | some vs =>
     if vs.length = n then
-      (specRepeat (specPrim p) path vs 0).map fun (b, e) => (b, (0, ⟨path, .listOf p.name, none, ""⟩) :: e)
+      (specRepeat (specPrim p) path vs 0).map fun (b, e) => (b, (0, ⟨path, .listOf p.name, none, "", 0⟩) :: e)
     else none
 
 def specListArm (elem : Prim) (n : Option Nat) (path : Path) (v : Val) : Option (List Byte × List SEv) :=
@@ -89,7 +89,7 @@ def specFieldWith (g : Path → Option Int → Val → Option (List Byte × List
     | .count c, some es =>
       if es.length = c then
         (specRepeat (fun p v => g p none v) fpath es 0).map fun (b, e) =>
-          (b, (0, ⟨fpath, .listOf tname, none, ""⟩) :: e)
+          (b, (0, ⟨fpath, .listOf tname, none, "", 0⟩) :: e)
       else none
     | _, _ => none
 
@@ -100,7 +100,7 @@ def spec : Ty → Path → Option Int → Val → Option (List Byte × List SEv)
     match v.asObj name false with
     | none => none
     | some fvs =>
-      (specFields fs path [] fvs).map fun (b, e) => (b, (0, ⟨path, .named name false, none, ""⟩) :: e)
+      (specFields fs path [] fvs).map fun (b, e) => (b, (0, ⟨path, .named name false, none, "", 0⟩) :: e)
   | .tpm2bBytes name szName szP bufName elem, path, _, v =>
     match (v.asObj name false).bind (asPair · szName bufName) with
     | none => none
@@ -111,7 +111,7 @@ def spec : Ty → Path → Option Int → Val → Option (List Byte × List SEv)
         | none => none
         | some (bb, be) =>
           if 0 < szP.size ∧ 0 ≤ n ∧ n.toNat = bb.length then
-            some (nb ++ bb, (0, ⟨path, .named name false, none, ""⟩) :: ne ++ shift nb.length be)
+            some (nb ++ bb, (0, ⟨path, .named name false, none, "", 0⟩) :: ne ++ shift nb.length be)
           else none
       | _, _ => none
   | .tpm2b name szName szP bufName body, path, _, v =>
@@ -122,22 +122,22 @@ def spec : Ty → Path → Option Int → Val → Option (List Byte × List SEv)
       | some (nb, ne), some n =>
         if n = 0 then
           if bv.isNone ∧ 0 < szP.size then
-            some (nb, (0, ⟨path, .named name false, none, ""⟩) :: ne ++
-              [(nb.length, ⟨path ++ [⟨bufName, none⟩], body.eventTag, none, ""⟩)])
+            some (nb, (0, ⟨path, .named name false, none, "", 0⟩) :: ne ++
+              [(nb.length, ⟨path ++ [⟨bufName, none⟩], body.eventTag, none, "", 0⟩)])
           else none
         else
           match spec body (path ++ [⟨bufName, none⟩]) none bv with
           | none => none
           | some (bb, be) =>
             if 0 < szP.size ∧ 0 ≤ n ∧ n.toNat = bb.length then
-              some (nb ++ bb, (0, ⟨path, .named name false, none, ""⟩) :: ne ++ shift nb.length be)
+              some (nb ++ bb, (0, ⟨path, .named name false, none, "", 0⟩) :: ne ++ shift nb.length be)
             else none
       | _, _ => none
   | .union name arms, path, sel, v =>
     match selectArm arms.keys sel with
     | none => none
     | some an =>
-      (specArm arms name an path v).map fun (b, e) => (b, (0, ⟨path, .named name false, none, ""⟩) :: e)
+      (specArm arms name an path v).map fun (b, e) => (b, (0, ⟨path, .named name false, none, "", 0⟩) :: e)
   | .bad _, _, _, _ => none
 termination_by structural t => t
 
